@@ -38,7 +38,7 @@ CHECKS = {
         "model_checking", "sched",
         "stateless preemption-bounded exploration of ALL schedules of the pooled fill tasks of the real cube code (baton scheduler on sys.monitoring LINE/INSTRUCTION events, model ThreadPool conformance-checked against the real one); bit-for-bit comparison with the serial result",
         "Every schedule with up to 1 preemption at line and at bytecode-instruction granularity (thorough: 2 at line granularity, pool sizes 1,2,3,4,16) of 3-4-task "
-        "harnesses on both cube types with 1-3 aggregates computed together is executed on the real code with fresh objects and compared bit-for-bit with serial evaluation; "
+        "harnesses on both cube types with 1-3 aggregates computed together (incl. (values, validity) facts hiding real numbers, so that lazily applied masks matter) is executed on the real code with fresh objects and compared bit-for-bit with serial evaluation; "
         "the number of distinct task completion orders is reported to show the exploration is not vacuous.",
         "Model pool replaces multiprocessing.pool.ThreadPool (chunking/FIFO/all-chunks-finish/first-recorded-failure; checked against the real pool on recording task sets); "
         "true parallelism inside GIL-releasing sections is only sampled by the free-running supplement.",
@@ -57,8 +57,8 @@ CHECKS = {
         "model_checking", "calls",
         "explicit-state BFS over call histories of aggregate evaluations with full object-state hashing, plus the argument-immutability invariant on every transition of the index state graph",
         "Index methods: on every transition of the C06 fixpoint graph the receiver of non-mutating methods and every argument must be byte-identical. Aggregates: all call "
-        "histories to depth 2 (3 in thorough) over an alphabet of every ordered selection of 1..2(3) of 8+13 function objects on 4 cubes plus shortcut methods; each "
-        "result must equal each aggregate evaluated alone on fresh objects bit for bit, caller-owned arrays must be byte-identical, and the hash of the entire reachable "
+        "histories to depth 2 (3 in thorough) over an alphabet of every ordered selection of 1..2(3) of 17+39 function objects on 8 cubes (twins with equal output shape, cubes with another row count) plus shortcut methods; each "
+        "result must equal each aggregate evaluated alone on fresh objects bit for bit, arrays returned by earlier calls must stay intact, caller-owned arrays must be byte-identical (snapshotted before any object is constructed), and the hash of the entire reachable "
         "object state is tracked: it never changes, so every event is a self-loop and depth 1 decides all histories over the alphabet.",
         "Diagnostic counters are excluded from the state hash (they never feed an output: supported dynamically).",
         "4.3, 6",
@@ -107,9 +107,9 @@ CHECKS = {
     "C06": (
         "model_checking", "hist",
         "explicit-state BFS to fixpoint over all reachable index states under the full operation alphabet, real methods vs NumPy dense model in lock-step",
-        "All concrete index states reachable within (rows<=2(3), cols<=2, values {0,1,2} + -1/absent common) are enumerated to a fixpoint (3.6k states, 0.8M transitions quick), "
+        "All concrete index states reachable within (rows<=2, cols<=2; thorough: up to 4 rows / 3 columns with a value bound on the larger shapes) are enumerated to a fixpoint (3.6k states, 0.9M transitions quick; 15k states, 15M transitions thorough), "
         "so every history of ANY length whose intermediate states stay inside the bounds is covered, not histories up to a depth; each transition executes the real method "
-        "on an object rebuilt from the state key and is compared with the NumPy model, so model traces are validated against the implementation on every step.",
+        "on an object rebuilt from the state key and is compared with the NumPy model (dense content, operands untouched, no shared storage for requested copies, and - by mutating every derived result in place - no aliasing back into its sources), so model traces are validated against the implementation on every step.",
         "State key abstracts dict insertion order (checked in thorough by expanding each state in both orders); set-update operands respect the exclusivity precondition.",
         "4",
     ),
